@@ -5,6 +5,7 @@ use super::net::*;
 use super::netconn::*;
 use crate::core::*;
 use crate::prng::{mix, Prng};
+use libtw2_huffman::instances::TEEWORLDS as HUFFMAN;
 
 fn bucket(n: usize) -> u64 {
     match n {
@@ -179,7 +180,60 @@ impl<'a> World<'a> {
         None
     }
 
+    /// alien_token runs: the middlebox between the endpoints. Towards A the acceptor's real token at the end
+    /// of a datagram becomes the reserved value, towards B (once A is online) the reserved value becomes the
+    /// real token again; Huffman-compressed datagrams are unpacked and packed again.
+    fn translate(&mut self, ctx: &mut Ctx, ep: usize, bytes: &[u8]) -> Vec<u8> {
+        let alien: [u8; 4] = if self.cfg.alien_token == 1 { [0; 4] } else { [0xff; 4] };
+        if bytes.len() < 3 || bytes[0] & 0x20 != 0 {
+            return bytes.to_vec();
+        }
+        let compressed = bytes[0] & 0x80 != 0;
+        let mut payload = if compressed {
+            match HUFFMAN.decompress_into_vec(&bytes[3..]) {
+                Ok(p) => p,
+                Err(_) => return bytes.to_vec(),
+            }
+        } else {
+            bytes[3..].to_vec()
+        };
+        let n = payload.len();
+        if n < 4 {
+            return bytes.to_vec();
+        }
+        if ep == 0 && self.alien_real.is_none() && !compressed && bytes[0] & 0x10 != 0 && n == 9 && payload[0] == 2 && &payload[1..5] == b"TKEN" {
+            self.alien_real = Some([payload[5], payload[6], payload[7], payload[8]]);
+        }
+        let real = match self.alien_real {
+            Some(t) => t,
+            None => return bytes.to_vec(),
+        };
+        let (from, to) = if ep == 0 { (real, alien) } else { (alien, real) };
+        if ep == 1 && self.s[0].conn.state_name() != "Online" {
+            return bytes.to_vec();
+        }
+        if payload[n - 4..] != from {
+            return bytes.to_vec();
+        }
+        payload[n - 4..].copy_from_slice(&to);
+        ctx.count("probe_alien_token_translated");
+        let mut out = bytes[..3].to_vec();
+        if compressed {
+            out.extend_from_slice(&HUFFMAN.compress_into_vec(&payload));
+        } else {
+            out.extend_from_slice(&payload);
+        }
+        out
+    }
+
     pub(super) fn feed(&mut self, ctx: &mut Ctx, ep: usize, bytes: &[u8]) -> Option<Violation> {
+        let translated: Vec<u8>;
+        let bytes: &[u8] = if self.cfg.alien_token != 0 && !self.injecting {
+            translated = self.translate(ctx, ep, bytes);
+            &translated
+        } else {
+            bytes
+        };
         ctx.logf(|| format!("  feed {} with {} bytes: {}", ["A", "B"][ep], bytes.len(), hex(bytes)));
         if self.cfg.stateless_accept && ep == 1 && !self.injecting && self.s[1].conn.state_name() == "Pending" && bytes.len() >= 4 && bytes[0] & 0x30 == 0x10 && bytes[3] == 3 {
             if let Some(t) = self.s[1].conn.expected_token() {
